@@ -81,11 +81,16 @@ def scenario(sh: Shard, seed, idx, regime):
             kw["spa_address"] = "10.0.0.99"
         events = []
         out = {}
+        susp = [0.0]
+        slow_handler = r.random() < 0.4
 
         async def handler(event, **k):
             events.append((event, w.now, k))
-            if r.random() < 0.2:
-                await asyncio.sleep(r.choice([0, 0.05]))
+            if r.random() < 0.3:
+                # the application's handler really suspends (I/O): up to seconds, also across the end of discovery
+                d = r.choice([0, 0.05, 0.05, 0.3, 0.6, 1.5]) if slow_handler else r.choice([0, 0.05])
+                susp[0] += d
+                await asyncio.sleep(d)
 
         cancel_after = r.choice([None, None, None, 0.0, 0.05, 0.3, 1.2, 3.9, 4.05]) if idx % 4 == 3 else None
 
@@ -131,7 +136,10 @@ def scenario(sh: Shard, seed, idx, regime):
         T_INIT, T_MAX = GeckoConfig.DISCOVERY_INITIAL_TIMEOUT_IN_SECONDS, GeckoConfig.DISCOVERY_TIMEOUT_IN_SECONDS
         late = REGIMES[regime][0]
         POLL = poll()
-        slack = 2 * POLL + 3 * late + w.loop.vsel.injected_stalls + 0.02
+        # time the hello consumer spent suspended inside the client's handler delays everything behind it
+        slack = 2 * POLL + 3 * late + w.loop.vsel.injected_stalls + 0.02 + susp[0]
+        if susp[0] >= 0.3:
+            sh.count("runs_with_slow_handlers")
         t0, t1 = out["t0"], out["t1"]
         dur = t1 - t0
         wit = {"mode": mode, "filter": kw, "responders": [(x.addr[0], x.ident.decode(), x.name, x.script) for x in resp], "duration": round(dur, 3), "listed": [(s.identifier.decode("latin1"), s.name, s.ipaddress) for s in out["spas"]], "regime": regime, "scenario": f"{seed}:{idx}"}
@@ -173,7 +181,7 @@ def scenario(sh: Shard, seed, idx, regime):
                 first[x.ident] = (t, x)
                 first_u[x.ident] = u
         stall = w.loop.vsel.injected_stalls
-        must = {i for i in first if first_u[i] + step + stall <= t1}
+        must = {i for i in first if first_u[i] + step + stall + susp[0] <= t1}
         may = {i for i, (t, x) in first.items() if t <= t1 + 1e-6}
         backlog = max((u - t for (t, x), u in zip(arrivals, U)), default=0)
         sh.maximum("max_reply_backlog_seconds", round(backlog, 2))
@@ -256,6 +264,7 @@ def main(tier, seed):
     for m in ("none", "id", "id-absent", "addr", "addr+id"):
         run.need(m in run.sets.get("modes", set()), f"filter mode {m} never exercised")
     run.need(run.counters.get("cancelled_discoveries", 0) > 10, "no cancelled discovery run")
+    run.need(run.counters.get("runs_with_slow_handlers", 0) > 30, "too few runs with a client handler suspended for 0.3 s or more")
     run.need(run.counters.get("names_with_separator_listed", 0) > 5 and run.counters.get("names_latin1_listed", 0) > 20, "names with '|' / latin-1 hardly listed")
     run.need(run.counters.get("returns_on_specific_answer", 0) > 20 and run.counters.get("returns_after_initial_wait", 0) > 20 and run.counters.get("ran_to_timeout", 0) > 20, "return-time classes not all observed")
     return run.finish(
